@@ -1,11 +1,13 @@
 import GtfsVerif.Lemmas.Journal
 import GtfsVerif.Lemmas.Decimal
 import GtfsVerif.Lemmas.Split
+import GtfsVerif.Gen.ExportTemplate
 /-! # C20 — CSV export is a complete, parseable rendering of the journal
 
 Model: `tripsCsv`, `stopTimesCsv` (Model/Journal.lean) are hand-written renderings equal byte for
-byte to what the two templates produce (checked on every run against the real `ExportToCsv`; the
-template text itself is deliberately not pinned). Read-back is modelled by splitting at LF and then
+byte to what the two templates produce (checked on every run against the real `ExportToCsv`, and –
+section "the templates as they are now" below – proved equal to an interpretation of the template
+files as the extractor reads them on every run). Read-back is modelled by splitting at LF and then
 at commas, which is what a standard CSV reader does on quote-free, CR-free input. -/
 namespace Gtfs.Journal
 
@@ -172,6 +174,116 @@ theorem C20_direction_cell (d : Nat) :
 
 /-- exporting does not modify the journal: the export is a function of the journal value -/
 theorem C20_export_pure (j : List Trip) : (tripsCsv j, stopTimesCsv j, j).2.2 = j := rfl
+
+/-! ## the templates as they are now
+
+`Gen.ExportTemplate` is regenerated from `trips.csv.tmpl`, `stop_times.csv.tmpl` and the FuncMap in
+export.go: header line, the field actions of the row, the literal text between them, what follows
+the row. `renderRow` is the fragment of text/template evaluation these templates use (evaluate each
+field action, write the literals between). The theorems say that the model's rows *are* that
+rendering, so a template edit that moves, drops or re-formats a column breaks a theorem here. -/
+
+/-- `c0 s0 c1 s1 … cn`: cells with the literal texts between them -/
+def interleave : List Str → List Str → Str
+  | [], _ => []
+  | [c], _ => c
+  | c :: cs, [] => c ++ interleave cs []
+  | c :: cs, s :: ss => c ++ s ++ interleave cs ss
+
+def renderRow (acts : List String) (seps : List Str) (term : Str) (val : String → Option Str) : Option Str :=
+  (acts.mapM val).map fun cells => interleave cells seps ++ term
+
+/-- `FormatDirectionID` as export.go has it now -/
+def fmtDirGen (d : Nat) : Str :=
+  match Gen.ExportTemplate.formatDirectionCases.find? (fun c => c.1 == (d : Int)) with
+  | some c => c.2
+  | none => Gen.ExportTemplate.formatDirectionDefault
+
+/-- what a field action evaluates to on a journal trip (`.Unix` of a time is its Unix seconds,
+    integers print in decimal, `NullableUnix`/`NullableString` print nothing for nil) -/
+def tripField (tr : Trip) (a : String) : Option Str :=
+  if a == ".TripUID" then some tr.uid
+  else if a == ".TripID" then some tr.tripId
+  else if a == ".RouteID" then some tr.route
+  else if a == "FormatDirectionID .DirectionID" then some (fmtDirGen tr.dir)
+  else if a == ".StartTime.Unix" then some (intToDec tr.start)
+  else if a == ".VehicleID" then some tr.vehicle
+  else if a == ".LastObserved.Unix" then some (intToDec tr.lastObs)
+  else if a == "NullableUnix .MarkedPast" then some (optUnix tr.past)
+  else if a == ".NumUpdates" then some (intToDec tr.numUpdates)
+  else if a == ".NumScheduleChanges" then some (intToDec tr.numChanges)
+  else if a == ".NumScheduleRewrites" then some (intToDec tr.numRewrites)
+  else none
+
+def stField (uid : Str) (s : ST) (a : String) : Option Str :=
+  if a == "$trip.TripUID" then some uid
+  else if a == ".StopID" then some s.stop
+  else if a == "NullableString .Track" then some (s.track.getD [])
+  else if a == "NullableUnix .ArrivalTime" then some (optUnix s.arr)
+  else if a == "NullableUnix .DepartureTime" then some (optUnix s.dep)
+  else if a == ".LastObserved.Unix" then some (intToDec s.lastObs)
+  else if a == "NullableUnix .MarkedPast" then some (optUnix s.past)
+  else none
+
+theorem fmtDirGen_eq (d : Nat) : fmtDirGen d = fmtDir d := by
+  unfold fmtDirGen fmtDir
+  by_cases h2 : d = 2
+  · subst h2; rfl
+  · by_cases h1 : d = 1
+    · subst h1; rfl
+    · have e2 : ((2 : Int) == (d : Int)) = false := by simp; omega
+      have e1 : ((1 : Int) == (d : Int)) = false := by simp; omega
+      simp [Gen.ExportTemplate.formatDirectionCases, Gen.ExportTemplate.formatDirectionDefault, List.find?, e1, e2, h1, h2]
+
+/-- **the trips template renders the model's row**: evaluating today's row of `trips.csv.tmpl` on
+    a trip gives exactly the model's line for it; the header is the model's header and names as many
+    columns as the row has cells; one row per trip and nothing else (one `range .`, one `end`,
+    nothing after it) -/
+theorem C20_trips_template (tr : Trip) :
+    renderRow Gen.ExportTemplate.tripsRow Gen.ExportTemplate.tripsSeparators Gen.ExportTemplate.tripsTerminator (tripField tr)
+      = some (line (tripCells tr)) ∧
+    Gen.ExportTemplate.tripsHeader = tripsHeader ∧
+    (splitOn comma Gen.ExportTemplate.tripsHeader).length = Gen.ExportTemplate.tripsRow.length ∧
+    Gen.ExportTemplate.tripsRanges = ["range ."] ∧ Gen.ExportTemplate.tripsEnds = 1 ∧
+    Gen.ExportTemplate.tripsTrailing = [] ∧
+    Gen.ExportTemplate.nullableUnixShape = true := by
+  refine ⟨?_, by decide, by decide, by decide, by decide, by decide, by decide⟩
+  simp [renderRow, Gen.ExportTemplate.tripsRow, Gen.ExportTemplate.tripsSeparators, Gen.ExportTemplate.tripsTerminator,
+    tripField, interleave, line, joinComma, tripCells, fmtDirGen_eq, comma, nl]
+
+/-- **the stop-times template renders the model's row**, keyed by the enclosing trip's UID: the
+    outer range binds `$trip`, the inner one walks its stop times -/
+theorem C20_stop_times_template (uid : Str) (s : ST) :
+    renderRow Gen.ExportTemplate.stopTimesRow Gen.ExportTemplate.stopTimesSeparators Gen.ExportTemplate.stopTimesTerminator (stField uid s)
+      = some (line (stCells uid s)) ∧
+    Gen.ExportTemplate.stopTimesHeader = stopTimesHeader ∧
+    (splitOn comma Gen.ExportTemplate.stopTimesHeader).length = Gen.ExportTemplate.stopTimesRow.length ∧
+    Gen.ExportTemplate.stopTimesRanges = ["range $trip := .", "range .StopTimes"] ∧ Gen.ExportTemplate.stopTimesEnds = 2 ∧
+    Gen.ExportTemplate.stopTimesTrailing = [] ∧
+    Gen.ExportTemplate.nullableUnixShape = true ∧ Gen.ExportTemplate.nullableStringShape = true := by
+  refine ⟨?_, by decide, by decide, by decide, by decide, by decide, by decide, by decide⟩
+  simp [renderRow, Gen.ExportTemplate.stopTimesRow, Gen.ExportTemplate.stopTimesSeparators, Gen.ExportTemplate.stopTimesTerminator,
+    stField, interleave, line, joinComma, stCells, comma, nl]
+
+/-- each header name stands over the field the statement says it does -/
+theorem C20_header_names_fields :
+    (splitOn comma Gen.ExportTemplate.tripsHeader).zip Gen.ExportTemplate.tripsRow =
+      [([116, 114, 105, 112, 95, 117, 105, 100], ".TripUID"), ([116, 114, 105, 112, 95, 105, 100], ".TripID"),
+       ([114, 111, 117, 116, 101, 95, 105, 100], ".RouteID"),
+       ([100, 105, 114, 101, 99, 116, 105, 111, 110, 95, 105, 100], "FormatDirectionID .DirectionID"),
+       ([115, 116, 97, 114, 116, 95, 116, 105, 109, 101], ".StartTime.Unix"), ([118, 101, 104, 105, 99, 108, 101, 95, 105, 100], ".VehicleID"),
+       ([108, 97, 115, 116, 95, 111, 98, 115, 101, 114, 118, 101, 100], ".LastObserved.Unix"),
+       ([109, 97, 114, 107, 101, 100, 95, 112, 97, 115, 116], "NullableUnix .MarkedPast"),
+       ([110, 117, 109, 95, 117, 112, 100, 97, 116, 101, 115], ".NumUpdates"),
+       ([110, 117, 109, 95, 115, 99, 104, 101, 100, 117, 108, 101, 95, 99, 104, 97, 110, 103, 101, 115], ".NumScheduleChanges"),
+       ([110, 117, 109, 95, 115, 99, 104, 101, 100, 117, 108, 101, 95, 114, 101, 119, 114, 105, 116, 101, 115], ".NumScheduleRewrites")] ∧
+    (splitOn comma Gen.ExportTemplate.stopTimesHeader).zip Gen.ExportTemplate.stopTimesRow =
+      [([116, 114, 105, 112, 95, 117, 105, 100], "$trip.TripUID"), ([115, 116, 111, 112, 95, 105, 100], ".StopID"),
+       ([116, 114, 97, 99, 107], "NullableString .Track"), ([97, 114, 114, 105, 118, 97, 108, 95, 116, 105, 109, 101], "NullableUnix .ArrivalTime"),
+       ([100, 101, 112, 97, 114, 116, 117, 114, 101, 95, 116, 105, 109, 101], "NullableUnix .DepartureTime"),
+       ([108, 97, 115, 116, 95, 111, 98, 115, 101, 114, 118, 101, 100], ".LastObserved.Unix"),
+       ([109, 97, 114, 107, 101, 100, 95, 112, 97, 115, 116], "NullableUnix .MarkedPast")] := by
+  constructor <;> decide
 
 /-! ## non-vacuity -/
 private def stEx : ST := ⟨[65, 49], some 5, none, some [50], 7, none⟩
